@@ -7,7 +7,8 @@ import vf
 
 GROUP = "SqlGen"
 THEOREMS = ["C14_ident_confined", "C14_string_confined", "C14_filter_confined", "C14_confinement",
-            "C14_insert_confined", "C14_update_confined", "C14_old_refuted"]
+            "C14_insert_confined", "C14_update_confined", "C14_old_refuted",
+            "C14_filter_meaning_partial", "C14_filter_rows_partial", "C14_filter_meaning_refuted", "C14_gen_where_confined"]
 META = {
     "group": GROUP,
     "technique": "Coq proof of lexical confinement of the generated SQL text over a Gallina model of the generators and of SQLite's tokenizer + vm_compute correspondence with the real generators + execution of the real text on SQLite under an authorizer",
